@@ -220,7 +220,15 @@ pub struct TreeCase {
 }
 
 fn digest_of(d: u8) -> String {
-    model::sha_hex(&[d])
+    // a few digests are made prefix-related to the special digests "d" / "e" / "r" (a content hash may
+    // well start with "d4..."): the byte-wise order of whole identifiers then differs from field-wise orders
+    let h = model::sha_hex(&[d]);
+    match d % 8 {
+        5 => format!("d{}{}", d % 10, &h[2..]),
+        6 => format!("e{}{}", d % 10, &h[2..]),
+        7 => format!("dA{}", &h[2..]),
+        _ => h,
+    }
 }
 
 /// build (revision, parent) pairs with the reference identifier rule
@@ -328,7 +336,7 @@ pub fn tree_strategy() -> BoxedStrategy<TreeCase> {
         8 => any::<u16>().prop_map(ParentSel::Node),
         1 => (1u16..14, 0u8..4).prop_map(|(idx, d)| ParentSel::Dangling { idx, d }),
     ];
-    let kind = prop_oneof![6 => (0u8..6).prop_map(NodeKind::Update), 2 => Just(NodeKind::Delete), 2 => Just(NodeKind::Marker)];
+    let kind = prop_oneof![6 => (0u8..16).prop_map(NodeKind::Update), 2 => Just(NodeKind::Delete), 2 => Just(NodeKind::Marker)];
     let ext = prop_oneof![8 => Just(0u8), 2 => 1u8..4, 1 => 8u8..14, 1 => 95u8..110];
     (vec((parent, kind, ext), 1..14), vec(any::<u64>(), 2..7)).prop_map(|(nodes, orders)| TreeCase { nodes, orders }).boxed()
 }
@@ -451,7 +459,7 @@ pub struct RevCase {
 
 pub fn rev_strategy() -> BoxedStrategy<RevCase> {
     (
-        vec((any::<u16>(), 0u8..3, 0u8..5), 1..24),
+        vec((any::<u16>(), 0u8..3, 0u8..16), 1..24),
         prop_oneof![6 => Just(0u16), 2 => 8u16..12, 1 => 98u16..102, 1 => 998u16..1003],
         vec((any::<u16>(), any::<u16>(), any::<u16>()), 1..30),
     )
@@ -471,7 +479,7 @@ pub fn run_rev(c: &RevCase) -> CaseRes {
     let r = (|| -> Result<bool, String> {
         // pool of (melda revision, reference string)
         let mut pool: Vec<(Revision, String)> = vec![];
-        for d in 0..3u8 {
+        for d in [0u8, 1, 5, 6] {
             let dg = digest_of(d);
             let r1 = Revision::new(1, dg.clone(), None);
             pool.push((r1, model::child_rev(&dg, None)));
